@@ -76,6 +76,31 @@ class Ctx:
         self.flat = Engine(fb, inline=None)
         self.pure = Engine(fb, inline=pure_policy(fb))
         wp = wrapper_policy(fb)
+        # API view: additionally inline private helpers that have a single caller in their own
+        # module (a function split in two by a refactoring is still one API operation)
+        callers = {}
+        for b in fb.bodies.values():
+            for _, t in b.calls():
+                r = t.get("resolved")
+                if r in fb.bodies:
+                    callers.setdefault(r, set()).add(b.path)
+
+        def helper(path, depth):
+            if wp(path, depth):
+                return True
+            b = fb.body(path)
+            if b is None or b.kind not in ("Fn", "AssocFn") or b.is_pub() or "Crate" in b.d.get("vis", "") and False:
+                return False
+            cs = callers.get(path, set())
+            if len(cs) != 1:
+                return False
+            c = next(iter(cs))
+            mod = lambda p_: p_.lstrip("<").split("::")[0]
+            vis = b.d.get("vis", "")
+            private = "Restricted" in vis and not vis.endswith("DefId(0:0 ~ wow_srp))") and "crate" not in vis.lower().split("restricted")[-1][:0]
+            return mod(c) == mod(path) and not b.reachable()
+
+        self.api = Engine(fb, inline=helper)
         # big-integer view: inline the Integer wrapper, the group constants and the key
         # wrappers' as_bigint, plus pure structure; stop at every other crate function
         self.big = Engine(fb, inline=lambda path, depth: path.startswith("bigint::") or path.startswith("<bigint::") or path.startswith("primes::") or path.startswith("<primes::") or path.endswith("::as_bigint") or wp(path, depth))
